@@ -173,7 +173,7 @@ func main() {
 	var table []access
 	var commands []string
 	typeBytes := map[string]string{}
-	facts := map[string]bool{"handleMessageOnlyFromDispatch": true}
+	facts := map[string]bool{"handleMessageOnlyFromDispatch": true, "sharedTypesHavePointerReceivers": true}
 	var stopOrder []string
 
 	for _, f := range files {
@@ -195,6 +195,15 @@ func main() {
 			case *ast.FuncDecl:
 				if d.Body == nil {
 					continue
+				}
+				if d.Recv != nil && len(d.Recv.List) > 0 {
+					// methods of the shared types must have pointer receivers: a value receiver copies the struct and with
+					// it the mutex, so that the method locks a private copy
+					if id, ok := d.Recv.List[0].Type.(*ast.Ident); ok {
+						if id.Name == "Config" || id.Name == "ConnManager" || id.Name == "Conn" || id.Name == "Server" || id.Name == "ServerConfig" {
+							facts["sharedTypesHavePointerReceivers"] = false
+						}
+					}
 				}
 				rt, rid := recvType(d)
 				fname := d.Name.Name
